@@ -25,3 +25,5 @@ open Mud.C07
 #print axioms modeC_flow
 #print axioms verlet_harmonic_global_error
 #print axioms verlet_harmonic_global_error_xv
+#print axioms conjStep_iterate
+#print axioms exp_steps_compose
